@@ -7,6 +7,8 @@ assignment table and every load update is checked against these roles.
 from __future__ import annotations
 
 import ast
+import math
+import sys
 import re
 
 from kfv import flow
@@ -779,6 +781,21 @@ def rule_flt_int(ctx: Ctx) -> None:
         exact = bool(re.search(rf'{var} != (int|round)\({var}\)|(int|round)\({var}\) != {var}', tx)) or '% 1' in tx
         ctx.check(tolerant and not exact, 'FLT-INT', init, f'integrality test {tx}', tx,
                   f'integrality of world_size*fraction is tested exactly ({tx}): a valid fraction k/world_size whose product is one ulp off k is rejected', t)
+        # the tolerance has to cover the rounding error of the product: fl(W * fl(k/W)) differs from k by up to
+        # (2u + u^2) k with u = 2^-53, i.e. a *relative* 2.3e-16.  math.isclose(a, b, rel_tol=r, abs_tol=t) accepts
+        # |a-b| <= max(r * max(|a|,|b|), t): r >= 2^-51 covers every world size; t alone only covers k <= t / 2.3e-16,
+        # accepted from 1e-9 on (k up to 4e6).
+        for c in (x for x in ast.walk(t.test) if isinstance(x, ast.Call) and norm(x.func) in ('math.isclose', 'isclose')):
+            tol = {'rel_tol': 1e-09, 'abs_tol': 0.0}
+            for kw in c.keywords:
+                if kw.arg in tol:
+                    try:
+                        tol[kw.arg] = float(eval(compile(ast.Expression(kw.value), '<tol>', 'eval'), {'__builtins__': {}}, {'math': math, 'sys': sys}))  # constants only
+                    except Exception:
+                        raise AnalysisIncomplete(f'KAISAAssignment.__init__: the tolerance {kw.arg}={norm(kw.value)} of the integrality test is not a constant expression')
+            ctx.check(tol['rel_tol'] >= 2.0 ** -51 or tol['abs_tol'] >= 1e-9, 'FLT-INT', init, f'tolerance of {norm(c)[:80]}', 'isclose-tolerance',
+                      f'the integrality test {norm(c)} accepts a deviation of max({tol["rel_tol"]:g}*k, {tol["abs_tol"]:g}); the product world_size*(k/world_size) '
+                      f'is off k by up to 2.3e-16*k (e.g. 588*(12/588) = 12.000000000000002), so valid fractions are rejected', c)
     if not tests:
         ctx.violate('FLT-INT', init, 'test', 'no integrality test of world_size*fraction', init.node)
     pc = p.get_func('preconditioner.KFACPreconditioner.__init__')
